@@ -17,6 +17,9 @@ Inductive fval : Type :=
 | PInf
 | NInf.
 
+(* a finite double given as mantissa / 2^e (cheap literal for the correspondence shards) *)
+Definition dbl (m : Z) (e : N) : fval := Fin (Qmake m (Pos.shiftl 1 e)).
+
 (* ---------- rounding ---------- *)
 Definition round_half_even (q : Q) : Z :=
   let f := Qfloor q in
